@@ -296,6 +296,26 @@ def inside_dirs(kind, params, t):
     return [d for d in out if d is not None]
 
 
+def float_zero_tests_wrong(seg, params, t):
+    """True when one of the exact zero tests `g(t0) != 0` / `f(t0) == 0` that
+    rational_limit performs on (dseg_poly**2, |dseg_poly|**2) comes out differently
+    in binary64 than in exact arithmetic (the derivative and hence both polynomials
+    vanish exactly at t0, the float Horner sums do not)."""
+    import numpy as np
+    dp = seg.poly().deriv()
+    f = dp ** 2
+    g = np.poly1d(dp.coeffs.real) ** 2 + np.poly1d(dp.coeffs.imag) ** 2
+    for j in range(1, 4):
+        if bez_deriv_exact(params, t, j) != (0, 0):
+            break
+    order = 2 * (j - 1)      # number of derivatives of f, g that vanish exactly at t0
+    for _ in range(order):
+        if g(t) != 0 or f(t) != 0:
+            return True
+        f, g = f.deriv(), g.deriv()
+    return False
+
+
 def scale_of(kind, params):
     if kind == 'arc':
         return max(abs(params[1].real), abs(params[1].imag), abs(params[5] - params[0]), 1e-300)
@@ -345,6 +365,15 @@ def check_impl(rep, kind, params, t, mode, o, stats):
         if not dirs:                      # derivative identically zero: no direction exists
             stats['degenerate'] += 1
             return False
+        bad = (stu != ST_VAL) or not finite(u) or abs(abs(complex(u)) - 1) > TOL_SING \
+            or all(min(abs(complex(u) - x), abs(complex(u) + x)) > TOL_SING for x in dirs)
+        if bad and float_zero_tests_wrong(seg, params, t):
+            # root cause: the zero tests of rational_limit are decided by rounding noise
+            V('unit_tangent(%r) %s at a zero of the derivative (limit from inside %r): rational_limit tests '
+              'g(t0) != 0 / f(t0) == 0 on binary64 Horner sums that are not exactly zero'
+              % (t, 'raises ValueError' if stu != ST_VAL else '= %r (modulus %r)' % (u, abs(complex(u))), dirs),
+              'unit-tangent-singular-roundoff', {'got': str(u), 'status': stu, 'inside': [str(x) for x in dirs]})
+            return False
         if stu != ST_VAL:
             V('unit_tangent raises at a point where the limit of derivative/|derivative| exists (%s)' % dirs,
               'unit-tangent-singular-raises', {'status': stu})
@@ -355,7 +384,7 @@ def check_impl(rep, kind, params, t, mode, o, stats):
             return False
         if abs(abs(u) - 1) > TOL_SING:
             V('unit_tangent has modulus %r at a zero of the derivative (value %r, limit from inside %r)'
-              % (abs(u), u, dirs), 'unit-tangent-singular-roundoff', {'got': str(u), 'inside': [str(x) for x in dirs]})
+              % (abs(u), u, dirs), 'unit-tangent-singular-modulus', {'got': str(u), 'inside': [str(x) for x in dirs]})
         elif all(abs(u - x) > TOL_SING for x in dirs):
             if any(abs(u + x) <= TOL_SING for x in dirs):
                 V('unit_tangent(%r) = %r is the NEGATIVE of derivative/|derivative| just inside the interval (%r)'
@@ -367,12 +396,13 @@ def check_impl(rep, kind, params, t, mode, o, stats):
             stats['singular_ok'] += 1
         if stn == ST_VAL and abs(complex(nrm) - (-1j) * u) > 1e-12:
             V('normal != -1j*unit_tangent at a singular point', 'normal-not-rot')
-        # the same call with a numpy scalar parameter must give the same answer
-        st2, u2, w2 = call(seg.unit_tangent, np.float64(t))
+        # the same segment with numpy.complex128 control points must give the same answer
+        seg_np = build(kind, [np.complex128(p) for p in params])
+        st2, u2, w2 = call(seg_np.unit_tangent, t)
         if st2 != ST_VAL or not finite(u2) or abs(complex(u2) - u) > 1e-9:
-            V('unit_tangent(numpy.float64(%r)) = %r but unit_tangent(%r) = %r: the ZeroDivisionError fallback is not '
-              'reached for numpy scalars (nan + RuntimeWarning %s)' % (t, u2, t, u, w2[:1]),
-              'unit-tangent-singular-nan-numpy-t', {'got': str(u2), 'python_float': str(u)})
+            V('with numpy.complex128 control points unit_tangent(%r) = %r (with Python complex: %r): the '
+              'ZeroDivisionError fallback is not reached for numpy scalars (nan + RuntimeWarning %s)'
+              % (t, u2, u, w2[:1]), 'unit-tangent-singular-nan-numpy', {'got': str(u2), 'python_complex': str(u)})
         return False
 
     if dnorm < 0.02 * sc:     # badly conditioned in binary64: not judged
@@ -487,9 +517,13 @@ def path_obs(rep, rng, kind, params, t, mode, o, stats):
     return (True, L, pk) if t2 == t else (False, 1.0, 0.0)
 
 
-def case_term(kind, params, t, o, pobs):
+def case_term(kind, params, t, o, pobs, singular=False):
     seg = o['seg']
     (su, u, _), (sn, n, _), (sk, k, _) = o['ut'], o['nm'], o['k']
+    # curvature at a zero of the derivative is outside the property ("at regular points"); its
+    # fallback works with degree-12 polynomials whose binary64 coefficients are rounded, so the
+    # exact zero tests agree with the model only at t0 = 0 (Horner returns the last coefficient)
+    if singular and t != 0.0: sk = ST_SKIP
     # a non-finite value cannot be written as a float literal: judged at implementation level only
     if su == ST_VAL and not finite(u): su = ST_SKIP
     if sn == ST_VAL and not finite(n): sn = ST_SKIP
@@ -553,7 +587,8 @@ def run(rep, tier, seed, replay=None):
             if mode.endswith('/generic') and t != 0.0:
                 stats['coq_skipped_generic_t1'] += 1
                 continue
-            cases.append(case_term(kind, params, t, o, pobs))
+            is_sing = kind != 'arc' and kind != 'line' and bez_deriv_exact(params, t, 1) == (0, 0)
+            cases.append(case_term(kind, params, t, o, pobs, singular=is_sing))
             meta.append((kind, params, t, mode, o))
         fails, errors = common.run_cases(tmp, 'From SVP Require Import Base.BigF.\n', 'casety', OKDEF, cases,
                                          shard=40, timeout=1500)
@@ -589,6 +624,13 @@ def run(rep, tier, seed, replay=None):
                           {'kind': 'agreement', 'lemmas': info['agree_failed'],
                            'file': 'coq/GenAgree/Tangent.v', 'messages': info.get('agree_msgs', {})},
                           found_input=False, key='agree')
+    # one violation of every class first (the CLI prints the first five replays)
+    cnt, order = {}, []
+    for v in rep.violations:
+        k = v[3] if len(v) > 3 else None
+        order.append((cnt.get(k, 0), len(order), v))
+        cnt[k] = cnt.get(k, 0) + 1
+    rep.violations[:] = [v for _, _, v in sorted(order, key=lambda x: (x[0], x[1]))]
     rep.assumptions += ['120-bit float execution of the model (Base/BigF.v) is accurate to far better than 1e-9 (unverified enclosure)',
                         'numpy poly1d arithmetic (polymul/polyadd/polyder/polyval) is the textbook one (oracle, sampled)',
                         'Arc.derivative is the derivative of Arc.point (property C04); Path.T2t (property C05)',
